@@ -236,6 +236,7 @@ impl LinkRelay<OutputHandle> {
     #[verifier::external_body]
     pub fn on_incoming_flow(&mut self, flow: LinkFlow) -> (r: Result<Option<LinkFlow>, LinkRelayError>)
         ensures *final(self) == relay_after(*old(self), RelayCall::Flow { flow }),
+            r is Ok ==> r->Ok_0 == relay_flow_answer(*old(self), flow),
     { unimplemented!() }
 
     #[verifier::external_body]
@@ -246,6 +247,8 @@ impl LinkRelay<OutputHandle> {
 }
 
 pub enum LinkRelayError { UnattachedHandle, TransferFrameToSender }
+/// the flow a link owes the peer in answer to `flow` (unit LINKFLOW: the drain answer "delivery-count advanced over all credit, zero credit", the echo), None when nothing is owed
+pub uninterp spec fn relay_flow_answer(relay: LinkRelay<OutputHandle>, flow: LinkFlow) -> Option<LinkFlow>;
 
 pub open spec fn relay_after(r: LinkRelay<OutputHandle>, c: RelayCall) -> LinkRelay<OutputHandle> {
     r.with_calls(r.calls().push(c))
@@ -751,7 +754,17 @@ impl Session {
             ==> Self::routed(old(self).link_by_input_handle@, final(self).link_by_input_handle@, InputHandle(flow.handle->Some_0.0),
                     RelayCall::Flow { flow: LinkFlow { handle: flow.handle->Some_0, delivery_count: flow.delivery_count, link_credit: flow.link_credit,
                         available: flow.available, drain: flow.drain, echo: flow.echo, properties: flow.properties } }),   // [C11.route.flow]
+        flow.handle is Some && old(self).link_by_input_handle@.contains_key(InputHandle(flow.handle->Some_0.0)) && r is Ok
+            ==> r->Ok_0 == Self::owed_answer(old(self).link_by_input_handle@, flow),      // [C08.flow.link-answer-handed-on] what the link answers is handed on unchanged
 //@@ end
+
+    /// the flow the link attached under the frame's handle owes in answer to it
+    pub open spec fn owed_answer(links: Map<InputHandle, LinkRelay<OutputHandle>>, flow: Flow) -> Option<LinkFlow> {
+        if flow.handle is Some && links.contains_key(InputHandle(flow.handle->Some_0.0)) {
+            relay_flow_answer(links[InputHandle(flow.handle->Some_0.0)], LinkFlow { handle: flow.handle->Some_0, delivery_count: flow.delivery_count, link_credit: flow.link_credit,
+                available: flow.available, drain: flow.drain, echo: flow.echo, properties: flow.properties })
+        } else { None }
+    }
 
     pub open spec fn flow_frame_reports(&self, f: SessionFrame, nii: u32, noi: u32) -> bool {
         &&& f.channel == self.outgoing_channel.0
@@ -794,6 +807,12 @@ impl Session {
             frames.len() > 0 && frames[0].body is Flow && frames[0].body->Flow_0.handle is Some
                 ==> forall|i: int| 0 <= i < b.len() ==> (#[trigger] b[i]).1.handle != frames[0].body->Flow_0.handle->Some_0    // [C08.flow.answer-not-ahead-of-parked-deliveries] the flow a sending link owes in answer (drain: "delivery-count advanced over all credit, zero credit left"; echo) is not written AHEAD of deliveries of that link which already took credit and are still held back by the session window: the receiver would see delivery-count 10 / credit 0 and THEN a further delivery
         }),
+        r is Ok && Self::owed_answer(old(self).link_by_input_handle@, flow) is Some ==> ({
+            let frames = Self::item_frames(r->Ok_0);
+            let a = Self::owed_answer(old(self).link_by_input_handle@, flow)->Some_0;
+            frames.len() >= 1 && frames[0].body is Flow && frames[0].body->Flow_0.handle == Some(a.handle) && frames[0].body->Flow_0.delivery_count == a.delivery_count
+                && frames[0].body->Flow_0.link_credit == a.link_credit && frames[0].body->Flow_0.drain == a.drain && frames[0].body->Flow_0.echo == a.echo
+        }),                                                                       // [C08.flow.link-answer-written] the flow a link owes in answer to the peer's flow -- the drain answer that tells the receiver "all credit used up or given back: zero credit", the echo it asked for -- IS written, whatever else this flow triggers (a re-opened window that releases held-back transfers included)
         r is Ok ==> ({
             let frames = Self::item_frames(r->Ok_0);
             let w = Self::window_from_peer(
